@@ -53,6 +53,10 @@ def showState (g : G) (i : Nat) (withResults : Bool) : String :=
   let base := s!"at={pcName t.pc} res={resName t.res}"
   let detail :=
     if t.pc = .done then "" else
+    if (match t.pc with | .ldel _ => true | _ => false) then
+      let live := sortBy (fun a b => a.item < b.item) (t.tracked.filter (·.live))
+      s!" own={natList ((live.filter (fun tr => tr.own)).map (·.item))}"
+    else
       let live := sortBy (fun a b => a.item < b.item) (t.tracked.filter (·.live))
       let own := (live.filter (fun tr => tr.own)).map (·.item)
       let trs := ",".intercalate (live.map fun tr => s!"{tr.item}:{actName tr.act}:{tr.ent.ver}")
